@@ -565,6 +565,37 @@ pub fn do_forge(w: &mut World, s: usize, g: usize, template: u64, q: usize) -> V
             }
         }
     }
+    // an observer checks the same proposal rules (it cannot check the confirmation tag, nor anything that needs a
+    // PSK value or a past epoch's secret)
+    let observer_checkable = rule_expected && !matches!(name, "duplicate-psk" | "resumption-psk-of-foreign-group");
+    if observer_checkable {
+        let now = w.now();
+        let prop = w.cfg.property.clone();
+        for k in 0..w.ext.observers.len() {
+            if w.ext.observers[k].g != g || w.ext.observers[k].group.group_context().epoch != epoch {
+                continue;
+            }
+            let mut grp = w.ext.observers[k].group.clone();
+            let res = guarded(&prop, "observer.process_incoming_message(forged commit)", || {
+                grp.process_incoming_message_with_time(mls_rs::MlsMessage::from_bytes(&msg)?, now)
+            })?;
+            w.stats.check("observer-rejects-invalid-proposal-set");
+            match res {
+                Ok(_) => {
+                    return Err(viol(
+                        w,
+                        "observer-rejects-invalid",
+                        format!("observer-accepted-invalid-proposal-set:{name}"),
+                        format!("observer {k} at epoch {epoch} accepted a commit signed by P{s} that carries an invalid proposal set ({name}); members reject it on a proposal rule"),
+                    ))
+                }
+                Err(e) => {
+                    let cls = err_class(&e);
+                    *w.stats.probes.entry(format!("observer-forged:{name}:{cls}")).or_default() += 1;
+                }
+            }
+        }
+    }
     Ok(true)
 }
 
